@@ -422,6 +422,188 @@ func c12cases(r *vh.Run) []c12case {
 			cs = append(cs, c12case{fam: "evm", desc: fmt.Sprintf("stack%x op %02x", stack, o), evm: code, block: true})
 		}
 	}
+	// (e) crafted serialized-value blobs handed to System.Runtime.Deserialize (appended last: the indices of the
+	// families above stay what they were)
+	cs = append(cs, c12blobCases(r)...)
+	return cs
+}
+
+// ---- family "deserialize-blob" ----
+//
+// The serialization format of a VM value is: one type-tag byte, then (byte array, integer) a var-uint length and
+// that many bytes, (bool) one byte, (array, struct) a var-uint item count and the items, (map) a var-uint entry
+// count and key,value pairs.  Transactions can hand ANY byte string to System.Runtime.Deserialize, so the count
+// / length is attacker-chosen and need not have anything to do with what follows it.  The family enumerates
+//   tag alphabet  x  count/length prefix alphabet (var-uint boundaries, the format's own limits, non-canonical
+//   and cut-off encodings)  x  every string of 0..2 following bytes over an item-byte alphabet,
+// the same headers nested one level inside an array, a struct, and a map (key and value position), and the
+// "truthful" blobs whose announced count/length is really present, at the limits of the format.
+
+type c12prefix struct {
+	name  string // becomes part of the violation key: keep it a class
+	bytes []byte
+}
+
+func c12varuint(v uint64, width int) []byte {
+	le := func(n int) []byte {
+		b := make([]byte, n)
+		for i := 0; i < n; i++ {
+			b[i] = byte(v >> (8 * uint(i)))
+		}
+		return b
+	}
+	switch width {
+	case 1:
+		return []byte{byte(v)}
+	case 3:
+		return append([]byte{0xfd}, le(2)...)
+	case 5:
+		return append([]byte{0xfe}, le(4)...)
+	}
+	return append([]byte{0xff}, le(8)...)
+}
+
+func c12canonWidth(v uint64) int {
+	switch {
+	case v < 0xfd:
+		return 1
+	case v <= 0xffff:
+		return 3
+	case v <= 0xffffffff:
+		return 5
+	}
+	return 9
+}
+
+// c12countClass: the class of an announced count/length that goes into the violation key
+func c12countClass(v uint64) string {
+	switch {
+	case v <= 1024:
+		return "count<=1024"
+	case v <= 1<<20:
+		return "count<=2^20"
+	case v < 1<<32:
+		return "count<2^32"
+	case v < 1<<63:
+		return "count<2^63"
+	}
+	return "count>=2^63"
+}
+
+func c12prefixes() []c12prefix {
+	var ps []c12prefix
+	// canonical encodings: var-uint width boundaries, the format's limits (1024 items, 2^20 bytes) and the
+	// int32 / int64 sign and size boundaries
+	for _, v := range []uint64{0, 1, 0xfc, 0xfd, 1024, 1025, 0xffff, 0x10000, 1 << 20, 1<<20 + 1, 1 << 24, 1 << 31, 1<<32 - 1, 1 << 32, 1 << 41, 1<<63 - 1, 1 << 63, 1<<64 - 1} {
+		ps = append(ps, c12prefix{fmt.Sprintf("%s canonical %#x", c12countClass(v), v), c12varuint(v, c12canonWidth(v))})
+	}
+	// padded (non-canonical) encodings
+	for _, p := range []struct {
+		v uint64
+		w int
+	}{{1, 3}, {1, 5}, {1, 9}, {0xffff, 5}, {1<<32 - 1, 9}} {
+		ps = append(ps, c12prefix{fmt.Sprintf("padded %#x in %d bytes", p.v, p.w), c12varuint(p.v, p.w)})
+	}
+	// no prefix at all / a width marker alone (completed, or not, by the following bytes)
+	ps = append(ps, c12prefix{"cut-off none", nil}, c12prefix{"cut-off fd", []byte{0xfd}}, c12prefix{"cut-off fe", []byte{0xfe}}, c12prefix{"cut-off ff", []byte{0xff}})
+	return ps
+}
+
+type c12tag struct {
+	name string
+	b    byte
+}
+
+func c12blobScript(blob []byte) []byte {
+	// Deserialize(blob); if that worked: Serialize a copy of the result, drop it, Notify the result
+	code := c12pushBytes(blob)
+	code = append(code, c12syscall("System.Runtime.Deserialize")...)
+	code = append(code, byte(neovm.DUP))
+	code = append(code, c12syscall("System.Runtime.Serialize")...)
+	code = append(code, byte(neovm.DROP))
+	code = append(code, c12syscall("System.Runtime.Notify")...)
+	return code
+}
+
+func c12blobCases(r *vh.Run) []c12case {
+	tags := []c12tag{{"bytearray", 0x00}, {"bool", 0x01}, {"integer", 0x02}, {"array", 0x80}, {"struct", 0x81}, {"map", 0x82},
+		// not part of the format: the in-memory-only type codes (big integer, interop), the neighbours of the
+		// compound tags and 0xff
+		{"tag03", 0x03}, {"tag40", 0x40}, {"tag7f", 0x7f}, {"tag83", 0x83}, {"tagff", 0xff}}
+	prefixes := c12prefixes()
+	// following bytes: nothing, every single byte of a 7-symbol item-byte alphabet (type tags / small counts /
+	// a width marker), every pair over its 4-symbol core
+	itemBytes := []byte{0x00, 0x01, 0x81, 0xff, 0x02, 0x80, 0x82}
+	var tails [][]byte
+	tails = append(tails, []byte{})
+	for _, a := range itemBytes {
+		tails = append(tails, []byte{a})
+	}
+	for _, a := range itemBytes[:4] {
+		for _, b := range itemBytes[:4] {
+			tails = append(tails, []byte{a, b})
+		}
+	}
+	var cs []c12case
+	add := func(where string, tg c12tag, cls, rest string, blob []byte, block bool) {
+		// desc: field 0 = position/tag, field 1 = count class (both go into the key), then free text
+		cs = append(cs, c12case{fam: "deserialize-blob", desc: fmt.Sprintf("%s/%s %s %s", where, tg.name, cls, rest), code: c12blobScript(blob), block: block && len(blob) < 1000})
+	}
+	cat := func(p ...[]byte) []byte {
+		o := []byte{}
+		for _, x := range p {
+			o = append(o, x...)
+		}
+		return o
+	}
+	emptyBytes := []byte{0x00, 0x00} // a serialized empty byte array
+	for _, tg := range tags {
+		for _, p := range prefixes {
+			f := strings.SplitN(p.name, " ", 2)
+			// top level: tag, prefix, 0..2 following bytes (all pre-executed; those with <=1 following byte also
+			// executed in a block)
+			for _, tl := range tails {
+				add("top", tg, f[0], fmt.Sprintf("%s tail=%x", f[1], tl), cat([]byte{tg.b}, p.bytes, tl), len(tl) <= 1)
+			}
+			// nested one level; the nested header is followed by nothing or one byte of the 4-symbol core
+			// (block execution for the bare nested header)
+			for _, tl := range tails[:5] {
+				hdr := cat([]byte{tg.b}, p.bytes, tl)
+				add("in-array", tg, f[0], fmt.Sprintf("%s tail=%x", f[1], tl), cat([]byte{0x80, 0x01}, hdr), len(tl) == 0)
+				add("in-struct", tg, f[0], fmt.Sprintf("%s tail=%x", f[1], tl), cat([]byte{0x81, 0x01}, hdr), len(tl) == 0)
+				add("map-key", tg, f[0], fmt.Sprintf("%s tail=%x", f[1], tl), cat([]byte{0x82, 0x01}, hdr, emptyBytes), len(tl) == 0)
+				add("map-value", tg, f[0], fmt.Sprintf("%s tail=%x", f[1], tl), cat([]byte{0x82, 0x01}, emptyBytes, hdr), len(tl) == 0)
+			}
+		}
+	}
+	// truthful blobs: the announced length / count is really there, around the limits of the format
+	for _, tg := range tags[:3] {
+		if tg.b == 0x01 {
+			continue
+		}
+		// (a transaction is limited to 1 MiB, so the longest pushable blob is a little shorter than that)
+		for _, n := range []int{0, 1, 2, 0xfc, 0xfd, 32, 33, 0xffff, 0x10000, 1<<20 - 1024} {
+			for _, fill := range []byte{0x00, 0x7f, 0xff} {
+				add("top", tg, c12countClass(uint64(n)), fmt.Sprintf("truthful %#x fill=%02x", n, fill), cat([]byte{tg.b}, c12varuint(uint64(n), c12canonWidth(uint64(n))), c12rep(fill, n)), true)
+			}
+		}
+	}
+	for _, tg := range tags[3:6] {
+		for _, n := range []int{0, 1, 2, 0xfc, 0xfd, 1023, 1024, 1025, 2048} {
+			for _, item := range [][]byte{emptyBytes, {0x01, 0x01}, {0x81, 0x00}} {
+				blob := cat([]byte{tg.b}, c12varuint(uint64(n), c12canonWidth(uint64(n))))
+				for i := 0; i < n; i++ {
+					if tg.b == 0x82 { // distinct integer keys
+						k := common.BigIntToNeoBytes(big.NewInt(int64(i)))
+						blob = append(blob, 0x02, byte(len(k)))
+						blob = append(blob, k...)
+					}
+					blob = append(blob, item...)
+				}
+				add("top", tg, c12countClass(uint64(n)), fmt.Sprintf("truthful %#x item=%x", n, item), blob, true)
+			}
+		}
+	}
 	return cs
 }
 
@@ -453,6 +635,9 @@ func c12key(fam, desc, what string) string {
 	case "evm":
 		f := strings.Fields(desc)
 		cls = "op" + f[len(f)-1]
+	case "deserialize-blob":
+		f := strings.Fields(desc)
+		cls = f[0] + ":" + f[1] // position/type tag : class of the announced count (encoding and following bytes are in the detail)
 	}
 	return fmt.Sprintf("%s:%s:%s", what, fam, cls)
 }
@@ -487,10 +672,44 @@ func TestVerif_C12_Worker(t *testing.T) {
 		t.Fatalf("fund: %v", err)
 	}
 	nonce := uint32(100)
+	// deserialize-blob: a worker death costs a worker start, and one defect kills every case of a class.  The
+	// worker brackets each case of that family in a side log ("B <class>" ... "E"); a restarted worker reads it
+	// and does not run further cases of a class that already killed a worker (recorded as outcome class
+	// "deserialize-blob:skipped-after-death"; the parent then reports the run as capped).
+	deadCls := map[string]bool{}
+	var dlog *os.File
+	if fn := os.Getenv("VERIF_C12_DEATHLOG"); fn != "" {
+		if b, err := os.ReadFile(fn); err == nil {
+			open := ""
+			for _, ln := range strings.Split(string(b), "\n") {
+				if strings.HasPrefix(ln, "B ") {
+					if open != "" {
+						deadCls[open] = true
+					}
+					open = ln[2:]
+				} else if ln == "E" {
+					open = ""
+				}
+			}
+			if open != "" {
+				deadCls[open] = true
+			}
+		}
+		dlog, _ = os.OpenFile(fn, os.O_CREATE|os.O_WRONLY|os.O_APPEND, 0644)
+	}
 	vwork.Serve(6<<30, 256<<20, func(i int, rep *vwork.Reporter) {
 		c := cases[i]
 		if f := os.Getenv("VERIF_C12_FAM"); f != "" && c.fam != f {
 			return
+		}
+		if c.fam == "deserialize-blob" && dlog != nil {
+			cls := c12key(c.fam, c.desc, "")
+			if deadCls[cls] {
+				rep.Class("deserialize-blob:skipped-after-death")
+				return
+			}
+			dlog.WriteString("B " + cls + "\n")
+			defer dlog.WriteString("E\n")
 		}
 		nonce++
 		var tx *types.Transaction
@@ -596,10 +815,19 @@ func TestVerif_C12(t *testing.T) {
 		if r.Expired() {
 			break
 		}
-		res := vwork.Run("TestVerif_C12_Worker", start, end, blk, 600*time.Second, nil, r.Expired)
+		tmpd := os.Getenv("VERIF_TMP")
+		if tmpd == "" {
+			tmpd = os.TempDir()
+		}
+		dlogName := fmt.Sprintf("%s/c12deaths_%d", tmpd, start)
+		res := vwork.Run("TestVerif_C12_Worker", start, end, blk, 600*time.Second, []string{"VERIF_C12_DEATHLOG=" + dlogName}, r.Expired)
+		os.Remove(dlogName)
 		r.Eval(int64(end - start))
 		for c, n := range res.Classes {
 			r.ClassN(c, n)
+			if c == "deserialize-blob:skipped-after-death" {
+				r.Capped("deserialize-blob: cases of a class that had already killed a worker were not run")
+			}
 		}
 		for _, v := range res.Violations {
 			c := cases[v.Case]
